@@ -33,13 +33,13 @@ def char_param(name, strings, width=None, desc='', locked=False, dims_tail=None)
     for x in strings: vals += padded(x, width)
     return Param(name, -1, [width] + (dims_tail if dims_tail is not None else [len(strings)]), vals, desc, locked)
 
-def make_content(S, P=2, C=1, sub=2, F=2, labels='equal', analog='full', extras=(), first=1, events=0, label_len=4, gid_map=None, symbolic_meta=True, desc_len=2, reserved=False, fixed_plabels=None, fixed_alabels=None, units_per_point=False, concrete_data=False, analog_lists='equal'):
+def make_content(S, P=2, C=1, sub=2, F=2, labels='equal', analog='full', extras=(), first=1, events=0, label_len=4, gid_map=None, symbolic_meta=True, desc_len=2, reserved=False, fixed_plabels=None, fixed_alabels=None, units_per_point=False, concrete_data=False, analog_lists='equal', point_rate=100.0):
     """S: Syms.  Returns Content whose payload is symbolic."""
     c = Content()
     c.nb_points = P; c.nb_channels = C; c.sub = sub if C else (sub if analog == 'full' else 0)
     if analog == 'empty': c.sub = 0; C = 0; c.nb_channels = 0
     c.first = first; c.last = first + F - 1
-    c.rate = F32(100.0)
+    c.rate = F32(point_rate)
     c.gap = S.bv('gap', 16) if symbolic_meta else 10
     nlab = {'equal': P, 'fewer': max(P - 1, 0), 'more': P + 1}[labels]
     plabels = [S.text('plabel', label_len) for _ in range(nlab)]
@@ -50,7 +50,7 @@ def make_content(S, P=2, C=1, sub=2, F=2, labels='equal', analog='full', extras=
     point = Group(gid['POINT'], 'POINT', dsc('gdesc'), False, [
         Param('USED', 2, [], [P], dsc('pdesc'), True),
         Param('SCALE', 4, [], [S.f32('pscale') if symbolic_meta else F32(-1.0)], [], False),
-        Param('RATE', 4, [], [F32(100.0)], [], True),
+        Param('RATE', 4, [], [F32(point_rate)], [], True),
         Param('DATA_START', 2, [], [0], [], True),
         Param('FRAMES', 2, [], [F], [], False),
         char_param('LABELS', plabels, label_len),
@@ -69,7 +69,7 @@ def make_content(S, P=2, C=1, sub=2, F=2, labels='equal', analog='full', extras=
             Param('SCALE', 4, [C], [S.f32('as') for _ in range(C)], [], False) if analog_lists == 'equal' else Param('SCALE', 4, [C + 1], [S.f32('as') for _ in range(C + 1)], [], False),
             Param('OFFSET', 2, [C], [S.bv('ao', 16) for _ in range(C)], [], False),
             char_param('UNITS', [S.text('au', 1) for _ in range(C)] if analog_lists == 'equal' else [], 4),
-            Param('RATE', 4, [], [F32(100.0 * (sub if sub else 1))], [], True),
+            Param('RATE', 4, [], [F32(point_rate * (sub if sub else 1))], [], True),
         ])
     else:
         ana = Group(gid['ANALOG'], 'ANALOG', [], False, [])
